@@ -433,9 +433,40 @@ fn chk_dedup_bytes(bytes: &[u8], want: &BTreeMap<u64, Vec<u8>>) -> Result<(), St
 /// ops may contain saves ("s:w:r") and opens ("o:r:range:hex") so that duplicates exist between
 /// in-memory and reader-backed tiles; probes are ignored
 fn chk_dedup(mode: &str, ops: &str) -> Result<(), String> {
+    // the op "t" continues the history on a newly started thread (what is stored must not depend on which thread
+    // touched the archive: per-thread hash seeds, scratch buffers, ...)
+    let all: Vec<String> = split_ops(ops).into_iter().map(|o| o.to_string()).collect();
     let mut st = fresh(mode == "async");
     let mut abs = Abs::new();
-    for o in split_ops(ops) {
+    for seg in all.split(|o| o == "t") {
+        let seg: Vec<String> = seg.to_vec();
+        let (st_in, abs_in) = (st, abs);
+        let r = std::thread::spawn(move || {
+            let (mut st, mut abs) = (st_in, abs_in);
+            let refs: Vec<&str> = seg.iter().map(String::as_str).collect();
+            chk_dedup_segment(&mut st, &mut abs, &refs).map(|()| (st, abs))
+        })
+        .join()
+        .map_err(|_| "a segment of the history panicked".to_string())??;
+        st = r.0;
+        abs = r.1;
+    }
+    let b = write_bytes(st)?;
+    chk_dedup_bytes(&b, &abs.tiles)
+}
+fn chk_dedup_segment(st_ref: &mut St, abs_ref: &mut Abs, ops: &[&str]) -> Result<(), String> {
+    let mut st = std::mem::replace(st_ref, fresh(false));
+    let mut abs = std::mem::replace(abs_ref, Abs::new());
+    let r = chk_dedup_ops(&mut st, &mut abs, ops);
+    *st_ref = st;
+    *abs_ref = abs;
+    r
+}
+fn chk_dedup_ops(st_ref: &mut St, abs_ref: &mut Abs, ops: &[&str]) -> Result<(), String> {
+    let mut st = std::mem::replace(st_ref, fresh(false));
+    let mut abs = std::mem::replace(abs_ref, Abs::new());
+    let r = (|| -> Result<(), String> {
+    for o in ops.iter().copied() {
         let f: Vec<&str> = o.split(':').collect();
         match f.as_slice() {
             ["s", _, r] => {
@@ -471,8 +502,11 @@ fn chk_dedup(mode: &str, ops: &str) -> Result<(), String> {
             }
         }
     }
-    let b = write_bytes(st)?;
-    chk_dedup_bytes(&b, &abs.tiles)
+    Ok(())
+    })();
+    *st_ref = st;
+    *abs_ref = abs;
+    r
 }
 
 // ---------------------------------------------------------------------------------------------
@@ -1384,6 +1418,27 @@ pub fn gen(prop: &str, rng: &mut Rng, quick: bool, st: &mut Stats) -> Option<Vec
                     st.bump("equal_contents_2pow32_apart");
                 }
             }
+            if prop == "C10" {
+                // histories that move between threads: equal contents added on different threads, an opened archive
+                // edited and saved on another thread
+                for (k, mode) in ["sync", "async", "sync", "async"].iter().enumerate() {
+                    let m = &mode[..1];
+                    let (ca, cb) = ("0a0b0c0d0e", "11121314");
+                    let ops = match k {
+                        0 => format!("a:5:{ca};a:9:{cb};t;a:6:{ca};a:a:{cb};t;a:7:{ca}"),
+                        1 => format!("a:5:{ca};a:6:{cb};s:{m}:{m};t;a:7:{ca};a:8:{cb};g:5;t;r:5;a:5:{cb}"),
+                        2 => format!("a:5:{ca};t;a:5:{ca};a:6:{ca};t;r:6;t;a:9:{ca}"),
+                        _ => format!("a:1:{ca};a:2:{ca};a:3:{ca};t;s:{m}:{m};t;a:4:{ca};a:0:{ca}"),
+                    };
+                    c.push(format!("chk_dedup {mode} {ops}"));
+                    st.bump("histories_across_threads");
+                }
+                // runs longer than 2^16 tiles (one entry, whatever its length), in memory and reader-backed
+                for (k, n) in [65_535u64, 65_536, 65_537, 70_000, 140_000].iter().enumerate() {
+                    c.push(format!("chk_dedup_run {} {n:x}", if k % 2 == 0 { "sync" } else { "async" }));
+                    st.bump("runs_beyond_2pow16");
+                }
+            }
             // one content larger than 1 MiB held by a reader-backed and by an in-memory tile
             if prop == "C10" {
                 for (k, n) in [1_048_576usize, 1_048_577].iter().enumerate() {
@@ -1536,6 +1591,14 @@ pub fn gen(prop: &str, rng: &mut Rng, quick: bool, st: &mut Stats) -> Option<Vec
                     c.push(format!("chk_spill {mode} none {ss} 0 {}", entries_tok(&es)));
                     c.push(format!("wdirs {mode} none {ss} 0 - {}", entries_tok(&es)));
                 }
+            }
+            // start sizes at the top of the usize range (arithmetic on the leaf size must not wrap)
+            for (i, ss) in ["ffffffffffffffff", "fffffffffffffffe", "ffffffffffffefff", "8000000000000000", "8000000000000001", "100000000", "ffffffff", "7fffffffffffffff"].iter().enumerate() {
+                let es = tiny_entries([4097usize, 4500, 9000][i % 3]);
+                let mode = if i % 2 == 0 { "sync" } else { "async" };
+                c.push(format!("chk_spill {mode} none {ss} 0 {}", entries_tok(&es)));
+                c.push(format!("wdirs {mode} none {ss} 0 - {}", entries_tok(&es)));
+                st.bump("lists_with_huge_start_size");
             }
             // small and empty lists, every start size
             for n in [0usize, 1, 2, 50] {
@@ -1775,6 +1838,41 @@ pub fn run_chk(toks: &[&str]) -> Option<String> {
             })
         }
         ["chk_dedup", mode, ops] => guard_chk(|| chk_dedup(mode, ops)),
+        ["chk_dedup_run", mode, n] => {
+            let n = unhex_u64(n);
+            guard_chk(|| {
+                // n consecutive ids with one content and a different tile on either side: exactly three entries
+                let mut st = fresh(*mode == "async");
+                let mut want: BTreeMap<u64, Vec<u8>> = BTreeMap::new();
+                let ops: Vec<String> = vec!["c:none".into(), "a:2:ee".into(), format!("a:{:x}:ee", 100 + n + 5)];
+                let refs: Vec<&str> = ops.iter().map(String::as_str).collect();
+                apply_ops(&mut st, &refs)?;
+                want.insert(2, vec![0xee]);
+                want.insert(100 + n + 5, vec![0xee]);
+                for i in 0..n {
+                    let r = match &mut st {
+                        St::S(p) => p.add_tile(100 + i, vec![7u8, 7, 7]),
+                        St::A(p) => p.add_tile(100 + i, vec![7u8, 7, 7]),
+                    };
+                    r.map_err(|e| format!("add_tile: {e}"))?;
+                    want.insert(100 + i, vec![7u8, 7, 7]);
+                }
+                let b = write_bytes(st)?;
+                chk_dedup_bytes(&b, &want)?;
+                let v = spec::parse(&b, true)?;
+                if v.tile_entries.len() != 3 {
+                    return Err(format!("{} tile entries for a run of {n} equal tiles between two single tiles (3 expected)", v.tile_entries.len()));
+                }
+                // the same archive re-saved from its reader-backed form
+                let st2 = reopen(*mode == "async", b.clone(), FULL)?;
+                let b2 = write_bytes(st2)?;
+                if b2 != b {
+                    chk_dedup_bytes(&b2, &want)?;
+                    return Err("re-saving the archive with the long run changes its bytes".into());
+                }
+                Ok(())
+            })
+        }
         ["chk_hist_then_dedup", mode, ops] => guard_chk(|| {
             // open a (non-deduplicated) foreign archive and write it again
             let f: Vec<&str> = ops.split(':').collect();
